@@ -95,6 +95,7 @@ static int runAlloc(const char *opsfile)
 //   clk2[-]   second clock (registers of ent1 run on it) ; "-" = not present
 //   ipc=<name>,<name>,...   interface package natural constants (only when given)
 //   shape=<full|mem|tiny|late>   full: everything; mem: clock+memory only; tiny: two pins;
+//                           clksig: clocks/resets used as logic signals (ck= use= sub= gt=);
 //                           clkrst: logic-driven clock / reset lines (cl= rl= dv= sub=);
 //                           late: forward-declared signals read before assigned (lv=0..9, nm=0|1)
 // Output: "D <id> ok <nfiles>" | "D <id> exception <what>"
@@ -342,6 +343,67 @@ static void buildClkRst(const Case &c)
 	}
 }
 
+
+// "clksig" family: clocks and resets used as LOGIC SIGNALS (Clock::clkSignal / rstSignal / reset)
+//   ck=<root|fall|rattr|own|logic>  whose signal is taken: the root clock, a derived clock sharing the
+//        parent's pin (falling edge / other register attributes), a derived clock with its own name and
+//        multiplier (own pin), a clock whose clock line is driven by logic
+//   use=<clk|rst|both|rstn>   sub=<0|1> (logic placed in a sub-entity)   gt=<0|1> gated result drives another clock
+static void buildClkSig(const Case &c)
+{
+	std::string ck = c.get("ck", "root"), use = c.get("use", "clk");
+	bool sub = c.get("sub", "0") == "1", gt = c.get("gt", "0") == "1", nm = c.get("nm", "0") == "1";
+	Clock clock({.absoluteFrequency = 100'000'000, .name = c.get("clk", "clk"), .resetName = c.get("rst", "reset")});
+	std::optional<Clock> other;
+	if (ck == "fall") other.emplace(clock.deriveClock(ClockConfig{.triggerEvent = ClockConfig::TriggerEvent::FALLING}));
+	else if (ck == "rattr") other.emplace(clock.deriveClock(ClockConfig{.resetType = ClockConfig::ResetType::ASYNCHRONOUS, .initializeRegs = false}));
+	else if (ck == "own") other.emplace(clock.deriveClock(ClockConfig{.frequencyMultiplier = 2, .name = c.get("clk2", "clk_fast"), .resetName = c.get("rst2", "rst_fast")}));
+	else if (ck == "logic") {
+		other.emplace(Clock({.absoluteFrequency = 50'000'000, .name = c.get("clk2", "clk_logic"), .resetName = c.get("rst2", "rst_logic")}));
+		Bit src = pinIn().setName(c.get("pi5", "clk_src"));
+		other->overrideClkWith(src);
+	}
+	const Clock &used = other ? *other : clock;
+
+	ClockScope cs(used);
+	Bit en = pinIn().setName(c.get("pi0", "en"));
+	UInt a = pinIn(4_b).setName(c.get("pi1", "a"));
+	std::optional<Area> area;
+	if (sub) area.emplace(c.get("ent0", "sub"), true);
+
+	Bit res = en;
+	if (use == "clk" || use == "both") {
+		Bit cks = used.clkSignal();
+		Bit g = cks & en;
+		if (nm) g.setName(c.get("sg0", "clk_gated"));
+		res = g;
+		if (gt) {
+			Clock gclk = used.deriveClock(ClockConfig{.name = c.get("clk3", "clk_g"), .resetName = c.get("rst3", "rst_g")});
+			gclk.overrideClkWith(g);
+			ClockScope cg(gclk);
+			UInt d = pinIn(4_b).setName(c.get("pi2", "d"));
+			UInt q = reg(d + 1, 0);
+			q.setName(c.get("rg0", "q"));
+			pinOut(q).setName(c.get("po2", "oq"));
+		}
+	}
+	if (use == "rst" || use == "both") {
+		Bit rs = used.rstSignal();
+		Bit r2 = rs | en;
+		if (nm) r2.setName(c.get("sg1", "rst_or_en"));
+		res = (use == "both") ? (res ^ r2) : r2;
+	}
+	if (use == "rstn") {
+		Bit rs = used.reset(Clock::ResetActive::LOW);
+		res = rs & en;
+	}
+	UInt r = reg(a, 1);
+	IF (res) r = a + 1;
+	if (area) area.reset();
+	pinOut(res).setName(c.get("po0", "o_sig"));
+	pinOut(r).setName(c.get("po1", "o_reg"));
+}
+
 static void buildTiny(const Case &c)
 {
 	UInt a = pinIn(4_b).setName(c.get("pi0", "pi0"));
@@ -379,6 +441,7 @@ static int runDesign(const char *casefile, const char *outroot)
 			else if (shape == "mem") buildMem(c);
 			else if (shape == "late") buildLate(c);
 			else if (shape == "clkrst") buildClkRst(c);
+			else if (shape == "clksig") buildClkSig(c);
 			else buildTiny(c);
 			design.postprocess();
 
